@@ -3,7 +3,7 @@
 use anyhow::{Context, Result};
 use clap::{Subcommand, ValueEnum};
 use std::fs;
-use std::path::Path;
+use std::path::{Component, Path, PathBuf};
 use wow_mpq::{
     Archive, ArchiveBuilder, FormatVersion, PatchChain, RebuildOptions,
     compare_archives as mpq_compare_archives,
@@ -706,6 +706,23 @@ fn extract_files(
     extract_files_with_options(options)
 }
 
+/// Join an archive file name onto `output_dir`, converting MPQ path separators
+/// to system ones. Names that could escape the output directory (`..`
+/// components, absolute paths, drive prefixes) are rejected.
+fn safe_output_path(output_dir: &str, mpq_name: &str) -> Result<PathBuf> {
+    let system_path = mpq_path_to_system(mpq_name);
+    let relative = Path::new(&system_path);
+
+    if !relative
+        .components()
+        .all(|c| matches!(c, Component::Normal(_) | Component::CurDir))
+    {
+        anyhow::bail!("unsafe path in archive (would be written outside of the output directory)");
+    }
+
+    Ok(Path::new(output_dir).join(relative))
+}
+
 fn extract_files_with_options(options: ExtractOptions) -> Result<()> {
     let ExtractOptions {
         archive_path,
@@ -823,8 +840,15 @@ fn extract_files_with_options(options: ExtractOptions) -> Result<()> {
             match data_result {
                 Ok(data) => {
                     let output_path = if preserve_paths {
-                        let system_path = mpq_path_to_system(&file);
-                        Path::new(&output_dir).join(system_path)
+                        match safe_output_path(&output_dir, &file) {
+                            Ok(path) => path,
+                            Err(e) => {
+                                log::warn!("Skipping {file}: {e}");
+                                error_count += 1;
+                                pb.inc(1);
+                                continue;
+                            }
+                        }
                     } else {
                         let system_path = mpq_path_to_system(&file);
                         let filename = Path::new(&system_path).file_name().unwrap_or_default();
@@ -901,9 +925,15 @@ fn extract_files_with_options(options: ExtractOptions) -> Result<()> {
             match chain.read_file(file) {
                 Ok(data) => {
                     let output_path = if preserve_paths {
-                        // Convert MPQ path separators to system path separators
-                        let system_path = mpq_path_to_system(file);
-                        Path::new(&output_dir).join(system_path)
+                        match safe_output_path(&output_dir, file) {
+                            Ok(path) => path,
+                            Err(e) => {
+                                log::warn!("Skipping {file}: {e}");
+                                error_count += 1;
+                                pb.inc(1);
+                                continue;
+                            }
+                        }
                     } else {
                         // Convert MPQ path to system path, then extract just the filename
                         let system_path = mpq_path_to_system(file);
